@@ -23,6 +23,36 @@ CHECKS = {
         text="Generated bundle programs (literals, each-arithmetic, filters, gating, any/all, selection, chains) are compiled by the real compiler and executed in the circuit model; the complete signal map observed at every named bundle's anchor must equal the reference map for every valuation, so leaked or altered members are visible. Exploration over programs x inputs is the right level: wildcard semantics only exist at execution time.",
         design_ref="DESIGN.md 3 (C02), 2.8.1",
     ),
+    "C03": dict(
+        category="exploration",
+        technique="runtime monitoring: offline checker of recorded held-step histories against a reference state machine (latch/hold), on the executed blueprint",
+        text="Generated programs with gated memory cells are compiled by the real compiler; the blueprint is driven through input histories (one input per step, held until settled) in the circuit model and every reader is compared after every step with a reference state machine. Hold behaviour across enable edges exists only over histories, so exploration over programs x histories is the right level.",
+        design_ref="DESIGN.md 3 (C03)",
+    ),
+    "C04": dict(
+        category="exploration",
+        technique="runtime monitoring: per-tick trace checker (exists L: trace[t+L] = f(trace[t])) on the executed blueprint, optimised vs unoptimised twin",
+        text="Generated self-referential write programs are compiled with and without optimisation and run from the all-zero state in the circuit model; the recorded per-tick trace at every identity reader must satisfy trace[t+L] = f(trace[t]) for one latency L shared by all readers, and the two builds must agree up to a shift. The statement is about every tick of a run, hence a trace monitor.",
+        design_ref="DESIGN.md 3 (C04)",
+    ),
+    "C05": dict(
+        category="exploration",
+        technique="runtime monitoring: latch automaton checked over recorded held-step histories, plus a reading-independent priority twin (arguments swapped)",
+        text="Generated latch programs (both argument orders, signals / inlinable / non-inlinable comparisons, constant and signal values) are compiled and driven through boundary-walking histories in the circuit model; every reader is compared with the reference automaton after each held step, and the same history on the argument-swapped twin must differ exactly in the both-active region. Priority and hold only exist over input sequences.",
+        design_ref="DESIGN.md 3 (C05)",
+    ),
+    "C06": dict(
+        category="exploration",
+        technique="runtime monitoring: entity circuit conditions evaluated by the circuit model on the networks wired to the entity, against the reference truth value of the assigned expression",
+        text="Generated programs place circuit-controllable entities (incl. pumps, power switches, chests read through .output) with every kind of enable expression; the blueprint is executed for valuations of inputs and chest contents and the condition of the entity found at the user-given tile must be true exactly when the reference value is positive, with the named signal's value on the wire equal to the reference value.",
+        design_ref="DESIGN.md 3 (C06)",
+    ),
+    "C10": dict(
+        category="exploration",
+        technique="runtime monitoring: differential execution (optimised vs --no-optimize build of the same source) of the emitted blueprints, plus the reference-model oracle on the optimised build",
+        text="The same generated source is compiled with and without optimisation by the real compiler; both blueprints are executed for the same valuations / held-step histories and every named output and entity condition must be identical, the optimised build also matching the reference semantics. Strata target the optimiser (CSE key variants, folded constants in every consumer kind, fan-out).",
+        design_ref="DESIGN.md 3 (C10)",
+    ),
 }
 
 PENDING = {}
